@@ -87,10 +87,12 @@ func newReadOnlySegment(basePath string, baseOffset int64) (ReadOnlySegment, err
 	}
 
 	if ms.idx, err = ms.c.codec.ReadIndex(ms.c.idxPath); err != nil {
-		if !errors.Is(err, codec.ErrDataCorrupted) {
+		// The index file is written when the segment is closed and it is never fsynced:
+		// after a crash it can be missing or incomplete, which is no worse than corrupted
+		if !errors.Is(err, codec.ErrDataCorrupted) && !errors.Is(err, os.ErrNotExist) {
 			return nil, errors.Wrapf(err, "failed to decode segment index file %s", ms.c.idxPath)
 		}
-		slog.Warn("The segment index file is corrupted and the index is being rebuilt.", slog.String("path", ms.c.idxPath))
+		slog.Warn("The segment index file is missing or corrupted and the index is being rebuilt.", slog.String("path", ms.c.idxPath))
 		// recover from txn
 		if ms.idx, _, _, _, err = ms.c.codec.RecoverIndex(ms.txnMappedFile, 0,
 			ms.c.baseOffset, nil); err != nil {
@@ -102,6 +104,11 @@ func newReadOnlySegment(basePath string, baseOffset int64) (ReadOnlySegment, err
 			slog.Warn("write recovered segment index failed. it can continue work but will retry writing after restart.",
 				slog.String("path", ms.c.idxPath))
 		}
+	}
+
+	if len(ms.idx) < 4 {
+		// There is no record to take the last crc from
+		return nil, errors.Wrapf(codec.ErrDataCorrupted, "no valid entry in segment txn file %s", ms.c.txnPath)
 	}
 
 	ms.lastOffset = ms.c.baseOffset + int64(len(ms.idx)/4-1)
